@@ -768,7 +768,12 @@ func c29Explore(r *eng.Run, sp c29Space) {
 	var sampled int32
 	completed := 0
 	for depth := 0; depth < sp.seqLen && len(frontier) > 0; depth++ {
-		var next [][]c29Op
+		// states first reached at this level -> their representative path: the smallest one (by trace) of all
+		// paths of this length reaching them, so that frontiers, witnesses and counts do not depend on scheduling
+		var level [shards]map[[16]byte][]c29Op
+		for i := range level {
+			level[i] = map[[16]byte][]c29Op{}
+		}
 		var nmu sync.Mutex
 		witness := map[string]*c29Witness{}
 		var trans, nontriv, gets, setFailed, commitsMerging, crossSnap, absentSnap, emptied, multiSnap int64
@@ -783,7 +788,6 @@ func c29Explore(r *eng.Run, sp c29Space) {
 			}
 			path := frontier[i]
 			var lt, ln, lg, lsf, lcm, lcross, labsent, lemptied, lmulti int64
-			var found [][]c29Op
 			for _, op := range ops {
 				full := append(append(make([]c29Op, 0, len(path)+1), path...), op)
 				in, ref, _ := c29Run(sp, path, false)
@@ -852,11 +856,17 @@ func c29Explore(r *eng.Run, sp c29Space) {
 				vmu[sh].Lock()
 				_, seen := visited[sh][k]
 				if !seen {
-					visited[sh][k] = struct{}{}
+					if cur, again := level[sh][k]; !again {
+						level[sh][k] = full
+					} else {
+						seen = true
+						if c29Trace(full) < c29Trace(cur) {
+							level[sh][k] = full
+						}
+					}
 				}
 				vmu[sh].Unlock()
 				if !seen {
-					found = append(found, full)
 					// per space: one commit merging over a stale snapshot, preferably (worlds of several snaps) one
 					// where a snap the transaction did not write moved on, or where the commit empties a snap
 					want := pre.interplay && pre.commitWrites && len(full)-len(sp.init) >= 4
@@ -878,13 +888,15 @@ func c29Explore(r *eng.Run, sp c29Space) {
 			atomic.AddInt64(&absentSnap, labsent)
 			atomic.AddInt64(&emptied, lemptied)
 			atomic.AddInt64(&multiSnap, lmulti)
-			if len(found) != 0 {
-				nmu.Lock()
-				next = append(next, found...)
-				nmu.Unlock()
-				atomic.AddInt64(&states, int64(len(found)))
-			}
 		})
+		var next [][]c29Op
+		for sh := range level {
+			for k, path := range level[sh] {
+				visited[sh][k] = struct{}{}
+				next = append(next, path)
+			}
+		}
+		states += int64(len(next))
 		r.Add("transitions", trans)
 		r.Add("transitions_"+sp.name, trans)
 		r.Add("evaluations", trans)
@@ -936,7 +948,7 @@ func c29Explore(r *eng.Run, sp c29Space) {
 func TestVerifC29(t *testing.T) {
 	debug.SetGCPercent(400)
 	r := eng.Start("C29", "model_checking", 150*time.Second, 13*time.Minute)
-	r.Assume("reference = nested maps: a transaction's view is its snapshot (or the latest committed configuration: the statement does not choose, both are accepted per Get) with its writes applied in order, nulls removed; commit = latest committed configuration with the transaction's writes applied in order, nulls removed",
+	r.Assume("reference = nested maps keyed by (snap, option path): a transaction's view of a snap is its snapshot of that snap (or the latest committed configuration of that snap: the statement does not choose, both are accepted per Get) with its writes to that snap applied in order, nulls removed; commit = latest committed configuration with the transaction's writes applied in order to exactly the snaps it wrote, nulls removed, every other snap untouched; revision operations touch only their snap",
 		"empty maps and absent options are not distinguished (whether removing the last entry of a map leaves an empty map is not part of the statement)",
 		"a Set whose path runs through a non-map value of the transaction's view or of its snapshot may be refused; if refused it must change nothing, if accepted it must take effect",
 		"operations are atomic under the state lock (held by the harness), so sequences of operations are the complete schedule space; no external configuration is registered")
@@ -1022,12 +1034,13 @@ func TestVerifC29(t *testing.T) {
 		}
 	} else {
 		spaces = []c29Space{
-			{name: "2tx-2snap", ntx: 2, snaps: two, keys: ab, vals: []int{0, 1, 2}, seqLen: 6},
-			{name: "2tx-2snap-preset", ntx: 2, snaps: two, keys: ab, vals: []int{0, 1, 2}, seqLen: 6, init: preset(2)},
-			{name: "2tx-2snap-full", ntx: 2, snaps: two, keys: c29AllKeys, vals: []int{0, 1, 2, 3}, seqLen: 4},
-			{name: "3tx-2snap", ntx: 3, snaps: two, keys: ab, vals: []int{0, 1, 2}, seqLen: 5},
+			{name: "2tx-2snap", ntx: 2, snaps: two, keys: ab, vals: []int{0, 1, 2}, seqLen: 5},
+			{name: "2tx-2snap-deep", ntx: 2, snaps: two, keys: ab, vals: []int{0, 1}, seqLen: 6},
+			{name: "2tx-2snap-preset", ntx: 2, snaps: two, keys: ab, vals: []int{0, 1, 2}, seqLen: 5, init: preset(2)},
+			{name: "3tx-2snap", ntx: 3, snaps: two, keys: ab, vals: []int{0, 1, 2}, seqLen: 4},
 			{name: "3tx-2snap-preset", ntx: 3, snaps: two, keys: ab, vals: []int{0, 1}, seqLen: 5, init: preset(3)},
 			{name: "revisions-2snap", ntx: 2, snaps: two, keys: []string{"a"}, vals: []int{0, 1}, revs: []int{1, 2}, seqLen: 6},
+			{name: "2tx-2snap-full", ntx: 2, snaps: two, keys: c29AllKeys, vals: []int{0, 1, 2, 3}, seqLen: 4},
 			{name: "2tx", ntx: 2, keys: c29AllKeys, vals: []int{0, 1, 2, 3, 4}, seqLen: 5},
 			{name: "2tx-deep", ntx: 2, keys: ab, vals: []int{0, 1, 2}, seqLen: 8},
 			{name: "revisions", ntx: 2, keys: []string{"a", "a.b", "d"}, vals: []int{0, 1, 2}, revs: []int{1, 2}, seqLen: 6},
@@ -1052,5 +1065,5 @@ func TestVerifC29(t *testing.T) {
 		fmt.Printf("space %-18s %4d ops/state, length %d: %8d states %9d transitions, %.1fs\n", sp.name, len(sp.ops()), sp.seqLen, r.Count("states_"+sp.name), r.Count("transitions_"+sp.name), time.Since(start).Seconds())
 	}
 	r.Info("bounds", bounds)
-	r.Finish("breadth-first over all interleavings (sequences) of transaction operations Set(key,value)/read-all/Commit of each transaction and Save/Restore/DiscardRevisionConfig, per space alphabet, deduplicated on the exact internal state (state config + revision-config + pristine and changes of every transaction); every operation executed on a state is one transition and is followed by a complete observation (all Gets of all begun transactions, committed config, saved revisions) compared with the reference; distinct_nontrivial = transitions in which transactions actually interact: the acting transaction's snapshot is stale or another transaction has uncommitted writes (or, for revision operations, something is saved/committed)")
+	r.Finish("breadth-first over all interleavings (sequences) of transaction operations Set(snap,key,value)/read-all/Commit of each transaction and Save/Restore/DiscardRevisionConfig(snap,rev), per space alphabet (one snap, or the two snaps core and s with the same option paths; start state empty or, in preset spaces, core={a:{b:N}} with no entry for s), deduplicated on the exact internal state (state config + revision-config + pristine and changes of every transaction); every operation executed on a state is one transition and is followed by a complete observation (all Gets of every snap of all begun transactions, committed config of every snap, saved revisions of every snap) compared with the reference; distinct_nontrivial = transitions in which transactions actually interact: the acting transaction's snapshot is stale or another transaction has uncommitted writes (or, for revision operations, something is saved/committed)")
 }
